@@ -289,6 +289,12 @@ class Gen:
                 hi += (1 if step_v > 0 else -1)     # limit not hit exactly
             lo_e = self.const_expr(ctype, lo)
             hi_e = self.const_expr(ctype, hi)
+            pre_counter = None
+            if r.random() < 0.12 and isinstance(hi, int) and isinstance(lo, int) and abs(hi) < 30000:
+                # the limit refers to the counter's value from before the loop: FOR I = lo TO I + d
+                p0 = r.choice([0, 5, -3, 2])
+                pre_counter = {"k": "assign", "lhs": ("var", name), "rhs": ("lit", "%", p0)}
+                hi_e = ("bin", "+", ("var", name), ("lit", "%", hi - p0)) if hi - p0 >= 0 else ("bin", "-", ("var", name), ("lit", "%", p0 - hi))
             self.reserved.add(name)
             body = self.block(depth + 1, "for")
             if r.random() < 0.3:
@@ -300,9 +306,12 @@ class Gen:
             self.reserved.discard(name)
             f = {"k": "for", "var": name, "lo": lo_e, "hi": hi_e, "step": step, "body": body, "next_var": r.random() < 0.5}
             after = {"k": "print", "items": [("e", ("var", name))]}
+            head = [pre_counter] if pre_counter is not None else []
             if mode == "computed":
                 pre = {"k": "assign", "lhs": ("var", "ST%d%%" % my_id), "rhs": ("lit", "%", st_value)}
-                return {"k": "multi", "stmts": [pre, f, after]}
+                return {"k": "multi", "stmts": head + [pre, f, after]}
+            if head:
+                return {"k": "multi", "stmts": head + [f, after]}
             return {"k": "multi", "stmts": [f, after]} if r.random() < 0.7 else f
         # while / do with an explicit counter
         self.loop_id += 1
@@ -315,6 +324,9 @@ class Gen:
         self.reserved.discard(name)
         cond_w = ("bin", "<", ("var", name), ("lit", "%", trips))
         cond_u = ("bin", ">=", ("var", name), ("lit", "%", trips))
+        if r.random() < 0.25:
+            # true as 5, not as -1: UNTIL must not be compiled as WHILE NOT
+            cond_u = ("bin", "AND", cond_u, ("lit", "%", 5))
         if r.random() < 0.3:
             cond_w = ("bin", "AND", cond_w, ("bin", "<", ("var", name), ("lit", "%", 9)))
         if kind == "while":
